@@ -232,4 +232,73 @@ fn extra(cfg: &Cfg, stats: &mut Stats) {
             });
         }
     }
+    // several files in one invocation: `fmt --check a b c ..` reports exactly the files that `fmt` would modify, each
+    // judged as it is judged alone
+    let groups = cfg.tier.pick(14, 120);
+    for g in 0..groups {
+        let mut rng = Rng::for_case(cfg.seed, "C14/multi", g);
+        let k = 2 + rng.below(4);
+        let mut files: Vec<(String, Vec<u8>, bool)> = Vec::new();
+        for j in 0..k {
+            let case = fmtwork::case(cfg, rng.below(total as usize) as u64);
+            if case.deep() || case.nesting >= fmtwork::COSTLY_NESTING || !matches!(e2::parse(&case.text), Ok(Ok(_))) {
+                continue;
+            }
+            // the first two as they are (mostly not canonical: mutated or generated), half of the others canonical
+            let text = if j >= 2 && rng.chance(1, 2) {
+                match e2::format(&case.text) {
+                    | Ok(Ok(t)) => t,
+                    | _ => continue,
+                }
+            } else {
+                case.text.clone()
+            };
+            let name = format!("g{}_{}.zy", g, j);
+            let path = scratch.write(&name, text.as_bytes());
+            let alone = proc::run(&bin, &["fmt", "--check", path.to_str().unwrap()], Some(scratch.path()), b"", 30, 120);
+            if alone.wall_timeout || alone.signal.is_some() || !matches!(alone.code, Some(0) | Some(1)) {
+                continue;
+            }
+            files.push((name, text.into_bytes(), alone.code == Some(1)));
+        }
+        if files.len() < 2 {
+            continue;
+        }
+        let mut argv: Vec<&str> = vec!["fmt", "--check"];
+        argv.extend(files.iter().map(|(n, _, _)| n.as_str()));
+        let joint = proc::run(&bin, &argv, Some(scratch.path()), b"", 60, 300);
+        stats.evaluations += 1;
+        stats.count("cli_multi_file_checks");
+        if joint.wall_timeout || joint.signal.is_some() {
+            stats.inconclusive("CLI formatter did not finish within its budget (C12's subject)");
+            continue;
+        }
+        let listed: Vec<String> = String::from_utf8_lossy(&joint.stdout).lines().map(|l| l.trim().to_string()).filter(|l| !l.is_empty()).collect();
+        let expected: Vec<String> = files.iter().filter(|(_, _, needs)| *needs).map(|(n, _, _)| n.clone()).collect();
+        let needing = expected.len();
+        stats.cover("multi_file_groups", &format!("{} files, {} need formatting", files.len(), needing));
+        let untouched = files.iter().all(|(n, bytes, _)| std::fs::read(scratch.path().join(n)).ok().as_deref() == Some(bytes.as_slice()));
+        let mut sorted_listed = listed.clone();
+        sorted_listed.sort();
+        let mut sorted_expected = expected.clone();
+        sorted_expected.sort();
+        let problem = if !untouched {
+            Some("`fmt --check` modified a file".to_string())
+        } else if sorted_listed != sorted_expected {
+            Some(format!("`fmt --check` on {} files listed {:?}; alone, the files that need formatting are {:?}", files.len(), listed, expected))
+        } else if (joint.code == Some(1)) != (needing > 0) {
+            Some(format!("`fmt --check` exited {:?} with {} files needing formatting", joint.code, needing))
+        } else {
+            None
+        };
+        if let Some(problem) = problem {
+            stats.violation(Violation {
+                signature: "cli-multi-file-check-disagrees-with-single-file-checks".into(),
+                tags: vec![],
+                generator: "cli".into(),
+                index: 1_000 + g,
+                detail: json!({"problem": problem, "files": files.iter().map(|(n, b, needs)| json!({"name": n, "needs_formatting": needs, "text": String::from_utf8_lossy(b)})).collect::<Vec<_>>(), "stdout": String::from_utf8_lossy(&joint.stdout)}),
+            });
+        }
+    }
 }
